@@ -15,7 +15,7 @@ import (
 // positions it reports missing and completes with VerifyPartialProof.
 func (w *World) partialFetchVerify(n *Node, st *State, hashes []H, targets []uint64, remember bool) bool {
 	L := st.Layout()
-	T := n.mp.TotalRows
+	T := n.mp.Rows()
 	w.count("partial_fetch")
 	var missing []uint64
 	g := w.fp.begin("MapPollard.GetMissingPositions", targets)
@@ -32,7 +32,7 @@ func (w *World) partialFetchVerify(n *Node, st *State, hashes []H, targets []uin
 	}
 	var want []uint64
 	for _, p := range L.ProofPlaces(places) {
-		if _, ok := n.mp.Nodes.Get(p.Pos(T)); !ok {
+		if _, ok := n.mp.NodeGet(p.Pos(T)); !ok {
 			want = append(want, p.Pos(L.R))
 		}
 	}
